@@ -61,14 +61,24 @@ def check_case(case, common, out):
     if _counter is None:
         _counter = _Steps()
     cid = K.case_id(case)
+    replay = {"kind": "call", "module": "vf.props.C19", "func": "replay_case", "args": {"case": list(case)}}
+    # programs whose result is a plain number (len(x), x.shape[0] of an eager API) optimize and compute while they are
+    # BUILT: the same watchdog applies there
+    _counter.steps = 0
+    signal.signal(signal.SIGALRM, _alarm)
+    signal.alarm(WATCHDOG_S)
     try:
         prog, q = K.build(case)
+    except _Timeout:
+        viol(out, "C19.optimize:terminates-within-watchdog", f"{cid}|while the program is built", f"building the program (it calls len() / compute(), i.e. optimize()) still running after {WATCHDOG_S}s ({_counter.steps} rewrite steps)", replay)
+        return
     except Exception as ex:
         out["notes"][f"refused at construction: {case[3]}"] = f"{type(ex).__name__}: {str(ex)[:80]}"
         return
+    finally:
+        signal.alarm(0)
     if not hasattr(q, "expr"):
         return
-    replay = {"kind": "call", "module": "vf.props.C19", "func": "replay_case", "args": {"case": list(case)}}
     nodes = sum(1 for _ in N.iter_nodes(q.expr))
     budget = 60 * nodes * nodes + 2000
     names = {}
@@ -80,6 +90,8 @@ def check_case(case, common, out):
             o1 = q.optimize(fuse=fuse)
         except _Timeout:
             viol(out, "C19.optimize:terminates-within-watchdog", f"{cid}|fuse={fuse}", f"optimize() still running after {WATCHDOG_S}s ({_counter.steps} rewrite steps)", replay)
+            if not fuse:
+                break  # optimize(fuse=True) runs the very same passes first: no second wait for the same report
             continue
         except RuntimeError as ex:
             if "converge" in str(ex):
@@ -150,15 +162,22 @@ def names_in_fresh_process(cases, hashseed):
         "from vf.rt.pool import _init; _init()\n"
         "from vf.rt import cases as K\n"
         "cases = json.load(sys.stdin); out = {}\n"
+        "import signal\n"
+        "class Watchdog(Exception): pass\n"
+        "def _alarm(signum, frame): raise Watchdog()\n"
+        "signal.signal(signal.SIGALRM, _alarm)\n"
         "for c in cases:\n"
         "    c = (c[0], c[1], tuple(tuple(x) if isinstance(x, list) else x for x in c[2]), c[3])\n"
+        "    signal.alarm(%d)\n"
         "    try:\n"
         "        p, q = K.build(c)\n"
         "        out[K.case_id(c)] = [q.expr._name, q.optimize(fuse=False).expr._name, q.optimize(fuse=True).expr._name]\n"
         "    except Exception as ex:\n"
         "        out[K.case_id(c)] = ['ERR ' + type(ex).__name__] * 3\n"
+        "    finally:\n"
+        "        signal.alarm(0)\n"
         "print('@@' + json.dumps(out))\n"
-    ) % (os.path.dirname(os.path.dirname(os.path.dirname(os.path.abspath(__file__)))), os.path.join(os.path.dirname(os.path.dirname(os.path.dirname(os.path.abspath(__file__)))), ".overlay"))
+    ) % (os.path.dirname(os.path.dirname(os.path.dirname(os.path.abspath(__file__)))), os.path.join(os.path.dirname(os.path.dirname(os.path.dirname(os.path.abspath(__file__)))), ".overlay"), WATCHDOG_S)
     env = dict(os.environ, PYTHONHASHSEED=str(hashseed))
     r = subprocess.run([sys.executable, "-W", "ignore", "-c", code], input=json.dumps(cases), capture_output=True, text=True, env=env, timeout=1200)
     for line in r.stdout.splitlines():
@@ -272,6 +291,8 @@ def run(run):
     run_cases(run, "vf.props.C19", "check_case", cases, {"values": True})
     # cross-process determinism of plan names (unfused plans; see known finding for fused names)
     sub = [list(c) for c in cases[:: max(1, len(cases) // (120 if run.tier == "quick" else 600))]]
+    # programs written for the across-interpreter comparison are always part of it (not left to the stride)
+    sub += [list(c) for c in cases if "xprocess" in C.PROGRAMS[c[3]].tags and list(c) not in sub]
     try:
         ref = names_in_fresh_process(sub, 0)
         for seed in (1, 12345):
